@@ -18,7 +18,7 @@ Extraction "model.ml"
   Spec.aspec Spec.amrun Spec.range_spec Spec.prefix_spec Spec.sorted_strictb Spec.ceil_idx Spec.floor_idx Spec.find_idx
   Iter.range_next Iter.rev_range_next Iter.prefix_next Iter.rev_prefix_next Iter.collect Iter.iter_new Iter.advance_key
   Format.decode_file Format.block_entries Format.block_size_of Format.size_without_last Format.block_sorted Format.offsets_ok
-  Merger.merge_run Merger.mf_concat Merger.mf_sortcat Merger.mf_fail_at Merger.merge_next Merger.init_heap
+  Merger.merge_run Merger.mf_concat Merger.mf_sortcat Merger.mf_join Merger.mf_fail_at Merger.merge_next Merger.init_heap
   Sorter.s_new Sorter.s_insert Sorter.s_finish Sorter.sorter_run Sorter.sorter_spec Sorter.clamp_threshold
   Sorter.clamp_chunks Sorter.default_capacity Sorter.round_up Sorter.n_new Sorter.n_insert Sorter.n_finish
   Sorter.fs_run Sorter.cr_fail_at Sorter.cr_never Sorter.fs_insert_r Sorter.fs_finish Sorter.creates
